@@ -3,6 +3,9 @@ import Ipv8.C13.TableA
 import Ipv8.C13.TableB
 import Ipv8.C13.TableC
 import Ipv8.C13.TableD
+import Ipv8.C13.TableE
+import Ipv8.C13.TableF
+import Ipv8.C13.TableG
 
 namespace Ipv8.C13
 
